@@ -596,7 +596,7 @@ func (ev *Eval) indexVal(base, idx Val) Val {
 			if base.lval != nil {
 				return ev.readAddr(base.lval.with(Step{Kind: stArr, Idx: i, T: base.T}), at.Elem())
 			}
-			return ev.valueOf("(select "+ev.term(base)+" "+i+")", at.Elem())
+			return ev.valueOf(s.arrSelect(at, ev.term(base), i), at.Elem())
 		}
 	}
 	ev.fail("index of non-indexable value")
@@ -896,6 +896,31 @@ func (ev *Eval) callExpr(x *ECall) Val {
 		k := "next_" + sortID(s.sortOf(pt.Elem()))
 		t := ev.term(v)
 		return Val{Term: "(and (< 0 " + t + ") (< " + t + " " + s.ghostGet(ev.mem, k, "Int") + "))", T: boolT}
+	case "cat":
+		// cat(a, b): the concatenation of two Go arrays as a sequence (ground chain, the same term
+		// the engine builds for append(a[:], b[:]...))
+		var parts []Val
+		var elemT types.Type
+		for _, a := range x.Args {
+			v := ev.eval(a)
+			at, ok := types.Unalias(v.T).Underlying().(*types.Array)
+			if !ok {
+				ev.fail("cat() of non-array")
+			}
+			elemT = at.Elem()
+			parts = append(parts, v)
+		}
+		es := s.sortOf(elemT)
+		arr := "((as const (Array Int " + es + ")) " + s.zero(elemT) + ")"
+		k := int64(0)
+		for _, v := range parts {
+			at := types.Unalias(v.T).Underlying().(*types.Array)
+			for j := int64(0); j < at.Len(); j++ {
+				arr = fmt.Sprintf("(store %s %d %s)", arr, k, s.arrSelect(at, ev.term(v), fmt.Sprint(j)))
+				k++
+			}
+		}
+		return Val{T: types.NewSlice(elemT), Term: s.mkSeq(es, fmt.Sprint(k), arr), seqElem: elemT, seqES: es}
 	case "seq":
 		// seq(a): the sequence of the elements of Go array a
 		v := ev.eval(x.Args[0])
@@ -904,7 +929,7 @@ func (ev *Eval) callExpr(x *ECall) Val {
 			ev.fail("seq() of non-array")
 		}
 		es := s.sortOf(at.Elem())
-		return Val{T: types.NewSlice(at.Elem()), Term: s.mkSeq(es, fmt.Sprint(at.Len()), ev.term(v)), seqElem: at.Elem(), seqES: es}
+		return Val{T: types.NewSlice(at.Elem()), Term: s.mkSeq(es, fmt.Sprint(at.Len()), s.arrToSMT(at, ev.term(v))), seqElem: at.Elem(), seqES: es}
 	case "pow2":
 		// 2^k for 0 <= k < 64, saturating at 2^64 above (closed form, no axioms)
 		k := ev.intTerm(ev.eval(x.Args[0]), Val{})
